@@ -82,6 +82,42 @@ class TD(TypedDict, Generic[T]):
 class TDChild(TD[T], Generic[T, U]):
     z: U
 
+# attrs models whose generic parent has a hand-written __init__ (attrs then generates __attrs_init__)
+import attrs as _attrs
+@_attrs.define
+class AInitParent(Generic[T]):
+    x: T
+    y: List[T]
+    def __init__(self, x: T, y: List[T] = ()):
+        self.__attrs_init__(x, list(y))
+@_attrs.define
+class AInitChild(AInitParent[int]):
+    z: str = "d"
+@_attrs.define
+class AInitGen(AInitParent[U], Generic[U]):
+    z: str = "d"
+@_attrs.define
+class AInitOwn(AInitParent[str]):
+    z: int = 0
+    def __init__(self, x: str, y: List[str] = (), z: int = 0):
+        self.__attrs_init__(x, list(y), z)
+# a generic parent left BARE in the list of bases, next to a subscripted base / Generic[...]: its fields get the implicit parameters
+@dataclasses.dataclass
+class BareMixin(Generic[T]):
+    m: T
+@dataclasses.dataclass
+class BareParentBC(Generic[B, C]):
+    a: B
+    b: C
+@dataclasses.dataclass
+class BareBaseChild(BareParentBC, BareMixin[str]):
+    pass
+@dataclasses.dataclass
+class BareBaseGen(BareParentBC, Generic[T]):
+    c: T
+@dataclasses.dataclass
+class BareBaseGen2(BareMixin, Generic[U]):
+    c: U
 # type variables inside PEP 604 unions next to builtin generics (types.UnionType annotations)
 @dataclasses.dataclass
 class PipeU(Generic[T]):
@@ -153,6 +189,18 @@ CASES.update({
     "PipeU_str": (PipeU[str], {"x": "str", "y": "opt_list_str", "z": "list_str_or_str", "w": "opt_str"}),
     "PipeChild": (PipeChild, {"x": "int", "y": "opt_list_int", "z": "list_int_or_str", "w": "opt_int"}),
     "PipeGen_str_int": (PipeGen[str, int], {"x": "int", "y": "opt_list_int", "z": "list_int_or_str", "w": "opt_int"}),
+})
+CASES.update({
+    "BareBaseChild": (BareBaseChild, {"a": "int", "b": "int_or_str", "m": "str"}),
+    "BareBaseGen_str": (BareBaseGen[str], {"a": "int", "b": "int_or_str", "c": "str"}),
+    "BareBaseGen_bare": (BareBaseGen, {"a": "int", "b": "int_or_str", "c": "any"}),
+    "BareBaseGen2_int": (BareBaseGen2[int], {"m": "any", "c": "int"}),
+})
+CASES.update({
+    "AInitParent_int": (AInitParent[int], {"x": "int", "y": "list_int"}),
+    "AInitChild": (AInitChild, {"x": "int", "y": "list_int", "z": "str"}),
+    "AInitGen_str": (AInitGen[str], {"x": "str", "y": "list_str", "z": "str"}),
+    "AInitOwn": (AInitOwn, {"x": "str", "y": "list_str", "z": "int"}),
 })
 CASES["Deep_int"] = (Deep[int], {"x": "list_int", "y": "list_int", "z": "int"})      # Child2[List[T]] with T=int
 
@@ -265,7 +313,7 @@ def build(tier, seed):
     m.ob("creation", "x: int", "return not ERR", timeout=30, family="generic hierarchies", bounds="loader and dumper creation for 25 parametrisations")
     cases = ["Child", "Child2_int", "Child2_str", "Child2_list", "Child2_bare", "Mid_str", "Mid_int", "Leaf", "Swap_int_str", "Swap_str_int", "Shadow_int",
              "Shadow_str", "Deep_int", "BoundG_bare", "BoundG_bool", "ConstrG_bare", "ConstrG_str", "Diamond", "Rename_int_str", "PlainOverChild", "PlainOverPlain", "GenericOverPlain_str", "AChild_int_str", "AChild_bare",
-             "NT_int", "NT_str", "TD_int", "TDChild_str_int", "PM_int", "PM_str", "PM2_int_str", "PMChild", "PMGen_str_int", "PMGen_int_str", "PMOpt_int", "PM_bare", "PipeU_int", "PipeU_str", "PipeChild", "PipeGen_str_int"]
+             "NT_int", "NT_str", "TD_int", "TDChild_str_int", "PM_int", "PM_str", "PM2_int_str", "PMChild", "PMGen_str_int", "PMGen_int_str", "PMOpt_int", "PM_bare", "PipeU_int", "PipeU_str", "PipeChild", "PipeGen_str_int", "BareBaseChild", "BareBaseGen_str", "BareBaseGen_bare", "BareBaseGen2_int", "AInitParent_int", "AInitChild", "AInitGen_str", "AInitOwn"]
     for c in cases:
         pyd = c.startswith("PM")
         nf = len(CASE_FIELDS.get(c, range(4)))
